@@ -161,8 +161,19 @@ def make_config(rng, fn=None, big=False, coefs=None, maxvars=6, one_shot_ok=Fals
     kw["in_order"] = rng.random() < 0.5
     kw["seed"] = rng.choice([None, 0, 5, 2 ** 31 - 1])
     kw["num_anneals"] = rng.choice([-1, 0, 1, 1, 3, 7])
+    numpy_spelled = False
+    if rng.random() < 0.15:
+        # the same numbers spelled as numpy scalars
+        import numpy as np
+        for k_ in ("num_anneals", "seed", "anneal_duration"):
+            if isinstance(kw.get(k_), int) and not isinstance(kw[k_], bool):
+                kw[k_] = rng.choice([np.int64, np.int32])(kw[k_])
+        if "temperature_range" in kw:
+            kw["temperature_range"] = tuple(np.float64(t) for t in kw["temperature_range"])
+        kw["in_order"] = np.bool_(kw["in_order"])
+        numpy_spelled = True
     return {"fn": fn, "type": tn, "model": m, "terms": dict(m), "kw": kw, "poly": p, "kind": kind,
-            "true_vars": tv, "full_keys": full, "own_matrix": own, "matrix": mat, "schedule_kind": sch, "user_mapping": mapped, "coef_kind": coef_kind}
+            "true_vars": tv, "full_keys": full, "own_matrix": own, "matrix": mat, "schedule_kind": sch, "user_mapping": mapped, "coef_kind": coef_kind, "numpy_spelled": numpy_spelled}
 
 
 def describe(cfg):
